@@ -270,8 +270,39 @@ func C17(c *fw.Ctx) {
 			gen(nil, 0)
 		}
 	}
+	// every list of up to three values over the extremes (infinities included), both call forms
+	ext := []float64{math.Inf(1), math.Inf(-1), math.MaxFloat64, -math.MaxFloat64, 0, 5}
+	for n := 1; n <= 3; n++ {
+		idx := make([]int, n)
+		for {
+			if c.Mine() {
+				for _, name := range []string{model.BiMin, model.BiMax} {
+					var a1, a2 []*model.N
+					for _, i := range idx {
+						a1 = append(a1, lit(ext[i]))
+						a2 = append(a2, lit(ext[i]))
+					}
+					builtinCase(c, name, a1, "minmax|extremes-list|"+name, false, "", nil, 0, 0)
+					builtinCase(c, name, []*model.N{model.Arr(a2...)}, "minmax|extremes-array|"+name, false, "", nil, 0, 0)
+				}
+			}
+			k := n - 1
+			for k >= 0 {
+				idx[k]++
+				if idx[k] < len(ext) {
+					break
+				}
+				idx[k] = 0
+				k--
+			}
+			if k < 0 {
+				break
+			}
+		}
+	}
 	if c.Mine() {
 		for _, name := range []string{model.BiMin, model.BiMax} {
+			builtinCase(c, name, []*model.N{lit(math.NaN())}, "minmax|single-nan", false, "", nil, 0, 0)
 			builtinCase(c, name, []*model.N{model.Arr()}, "minmax|empty-array", false, "", nil, 0, 0)
 			builtinCase(c, name, []*model.N{model.Arr(model.Num(1), model.Str("x"))}, "minmax|array-with-string", false, "", nil, 0, 0)
 			builtinCase(c, name, []*model.N{model.Arr(model.Num(1)), model.Num(2)}, "minmax|array-and-number", false, "", nil, 0, 0)
